@@ -1,0 +1,78 @@
+//go:build verif
+// +build verif
+
+package scipipe
+
+// Exported wrappers around unexported pure functions, for the verification
+// harness (build tag `verif`). Nothing here changes library behaviour.
+
+// VerifPortInfo mirrors the unexported PortInfo fields
+type VerifPortInfo struct {
+	PortType  string
+	Extension string
+	DoStream  bool
+	Join      bool
+	JoinSep   string
+}
+
+func VerifApplyPathModifiers(path string, mods []string) string { return applyPathModifiers(path, mods) }
+func VerifSplitAllPaths(path string) []string                   { return splitAllPaths(path) }
+func VerifSanitizePathFragment(s string) string                 { return sanitizePathFragment(s) }
+func VerifPathIsValid(path string) bool                         { ok, _ := pathIsValid(path); return ok }
+func VerifEncodeParentDirs(s string) string                     { return replaceParentDirsWithPlaceholder(s) }
+func VerifDecodeParentDirs(s string) string                     { return replacePlaceholdersWithParentDirs(s) }
+func VerifPrependParentDirPath(s string) string                 { return prependParentDirPath(s) }
+func VerifTempDirPrefix() string                                { return tempDirPrefix }
+
+// VerifPlaceholderMatches returns FindAllStringSubmatch of the placeholder regex
+func VerifPlaceholderMatches(s string) [][]string {
+	return getShellCommandPlaceHolderRegex().FindAllStringSubmatch(s, -1)
+}
+
+// VerifPortInfos returns the port infos NewProc derived from the command pattern
+func VerifPortInfos(p *Process) map[string]VerifPortInfo {
+	out := map[string]VerifPortInfo{}
+	for k, v := range p.PortInfo {
+		out[k] = VerifPortInfo{v.portType, v.extension, v.doStream, v.join, v.joinSep}
+	}
+	return out
+}
+
+// VerifNewTask builds a task exactly as createTasks does, from explicit inputs.
+// subStreams gives, for joined ports, the member paths (sent on the carrier's SubStream).
+func VerifNewTask(p *Process, inPaths map[string]string, subStreams map[string][]string, params map[string]string, tags map[string]string) *Task {
+	inIPs := map[string]*FileIP{}
+	for k, path := range inPaths {
+		ip, err := NewFileIP(path)
+		if err != nil {
+			p.Fail(err)
+		}
+		inIPs[k] = ip
+	}
+	for k, members := range subStreams {
+		carrier := inIPs[k]
+		ch := make(chan *FileIP, len(members)+1)
+		for _, m := range members {
+			mip, err := NewFileIP(m)
+			if err != nil {
+				p.Fail(err)
+			}
+			ch <- mip
+		}
+		close(ch)
+		carrier.SubStream = &InPort{Chan: ch, name: "in_substream", RemotePorts: map[string]*OutPort{}}
+	}
+	return NewTask(p.workflow, p, p.Name(), p.CommandPattern, inIPs, p.PathFuncs, p.PortInfo, params, tags, p.Prepend, p.CustomExecute, p.CoresPerTask)
+}
+
+// VerifNewWorkflowQuiet returns a workflow that does not create a log file
+func VerifNewWorkflowQuiet(name string, maxConcurrentTasks int) *Workflow {
+	InitLogError()
+	return newWorkflowWithoutLogging(name, maxConcurrentTasks)
+}
+
+// VerifHook lets harness code (custom Go functions, recorder components) write to the hook trace
+func VerifHook(point string, args ...string) { vhook(point, args...) }
+
+// VerifSetStream marks an IP as streaming (as NewTask does for {os:..} ports)
+func (ip *FileIP) VerifDoStream() bool { return ip.doStream }
